@@ -446,6 +446,13 @@ def classify_report(text):
       names.append(short_fn(fn))
   if out['kind'] == 'stack-overflow' and out['where'] == 'none':
     out['where'] = 'repo'
+  if out['where'] == 'shim' and out['kind'] == 'SEGV' and re.search(r'zero page|unknown address 0x0{8}[0-9a-f]{1,4}\b', text):
+    # a DOM accessor (XMLElement::Attribute, FirstChildElement, ...) called on a NULL element: the real tinyxml2 faults in
+    # exactly the same way, the defect is in the caller. Attribute it to the first non-shim frame.
+    rest = [(fn, path) for fn, path in frames if not path.startswith(vb.SHIMS + '/')]
+    if rest and (rest[0][1].startswith(repo + '/') or rest[0][1].startswith('/repo/')):
+      out['where'] = 'repo'
+      names = ['null-element'] + [short_fn(fn) for fn, path in rest if path.startswith(repo + '/') or path.startswith('/repo/')]
   key = '|'.join(names[:3])
   if out['kind'] == 'stack-overflow':
     # the innermost frames of a runaway recursion are arbitrary: use the functions of the cycle instead
@@ -721,6 +728,37 @@ def show(data, n=600):
 
 # ---------------------------------------------------------------------------------------------------------------------
 
+ROOT_CAUSES = [
+    (r'^conforming-rejected:required attribute missing', 'mjcf.schema omits the `required` facet on an attribute that the reader (and XMLreference.rst) requires'),
+    (r'^conforming-rejected:bad format in attribute', 'mjcf.schema declares double[] for an attribute that the reader parses as int'),
+    (r'^conforming-rejected:', 'reader rejects a schema-conforming document with a schema/type-layer message'),
+    (r'^schema-check-skipped:', 'mjXSchema::Check never descends into <frame>/<replicate>: their attributes and whole subtrees are not validated'),
+    (r'^accepted:bad_enum:composite_joint\.limited', 'OneComposite reads `limited` from the composite element instead of its joint child: the keyword is never checked'),
+    (r'^accepted:required_missing:config\.key', 'plugin <config> children are not read when the plugin element references an instance'),
+    (r'^accepted:out_of_range:', 'min/max facet of mjcf.schema not enforced by reader or compiler'),
+    (r'^accepted:', 'a document with a schema violation is accepted'),
+    (r'^escape:mju_error:Requested index in mjs_setInStringVec', 'OneMaterial passes FindKey()==-1 for an unknown layer role to mjs_setInStringVec -> mju_error outside any handler'),
+    (r'^escape:exception:std::bad_optional_access.*mjXReader::Asset', 'Asset: <model> without file calls .value() on an empty optional; SpecFromXML only catches mjXError'),
+    (r'^escape:', 'mju_error / C++ exception leaves the C API'),
+    (r'GetClass', 'GetClass passes user text as the printf format of mjXError'),
+    (r'mjXReader::Custom', 'Custom: negative numeric size is passed as length to ReadAttr into double data[500]'),
+    (r'heap-buffer-overflow:mjXReader::Asset', 'Asset/hfield: nrow*ncol overflows int'),
+    (r'CopyPlugin', 'attach of a frame holding plugin elements (replicate count>=2 around a cable composite): stale plugin pointer'),
+    (r'ComputeReference', 'ComputeReference uses a stale joint type when keyframes are stored during attach'),
+    (r'mjCPlugin::Compile|mjCBody::Compile', 'plugin element without plugin name and instance: null plugin dereferenced at compile'),
+    (r'^asan:stack-overflow', 'self-attach with an empty body name attaches the world to itself: unbounded recursion'),
+    (r'^asan:|^crash', 'memory error / crash in the loader'),
+    (r'^oracle:', 'API contract (NULL without message, handlers, loadXML vs parse+compile)'),
+]
+
+
+def root_cause(fp):
+  for rx, what in ROOT_CAUSES:
+    if re.search(rx, fp):
+      return what
+  return 'unclassified'
+
+
 class Ctx37:
   """State of one run of the check."""
 
@@ -733,6 +771,7 @@ class Ctx37:
 
   def finding(self, fp, msg, replay):
     fp = fp[:150]
+    msg = '[root cause: %s] %s' % (root_cause(fp), msg)
     self.findings[fp] += 1
     if fp not in self.finding_what:
       self.finding_what[fp] = msg[:300]
@@ -983,6 +1022,13 @@ def part_b(ck, S, g, exe_rel, exe_fuzz):
     if el == 'numeric' and "'data' has too much data" in msg:
       # documented value-dependent rule, not a schema reason (XMLreference custom-numeric-data: "If size is specified, the
       # length of the array given here cannot exceed the specified size"); the reader words it with the arity phrase
+      labels[-1] = 'b:conf:rejected-semantic'
+      return None
+    am = re.search(r"'(\w+)'", msg)
+    if am and any(n.tag == el and n.ctx is not None and am.group(1) in n.ctx.attr and
+                  n.ctx.attr[am.group(1)].facets.get('reading') == 'custom' for n in doc.root.walk()):
+      # attributes declared reading=custom have hand-written read semantics by the schema's own definition
+      # ("reading=custom: hand-written read semantics; no typed binding is generated"): their rules are not schema rules
       labels[-1] = 'b:conf:rejected-semantic'
       return None
     fp = 'conforming-rejected:%s@%s' % (re.sub(r'\d+', 'N', msg)[:90], el)
@@ -1351,6 +1397,42 @@ def part_a_collect(ck, S, slots, exe_fuzz):
     raise RuntimeError('C37: fuzzers executed only %d inputs' % execs)
   if len(hashes) < 3:
     raise RuntimeError('C37: only %d fuzz inputs reached the reader' % len(hashes))
+
+
+def regressions(ck):
+  """Re-run the committed minimal reproducers (replays/C37). A reproducer whose defect is still present reports through
+  ck.violation with the fingerprint of the finding (-> KNOWN-FINDING when listed); a repaired one simply passes."""
+  d = os.path.join(vb.VERIF, 'replays', 'C37')
+  idxf = os.path.join(d, 'index.json')
+  if not os.path.exists(idxf):
+    return
+  os.makedirs(WD, exist_ok=True)
+  S = Ctx37(ck)
+  exe_fuzz = vb.build_exe('fuzz_xml', [SRC], variant='fuzz', extra_ldflags=['-fsanitize=fuzzer', '-rdynamic'])
+  w = Worker(exe_fuzz, True, WD, spares=1)
+  res = collections.Counter()
+  try:
+    for e in json.load(open(idxf))['replays']:
+      data = open(os.path.join(d, e['file']), 'rb').read()
+      r = w.run(data, load=True, timeout=120)
+      origin = 'regression:' + e['file']
+      before = sum(S.findings.values())
+      if handle_common(S, r, data, origin):
+        pass
+      elif e['expect'].startswith('must_reject'):
+        rejected = r.parse == 0 or (e['expect'].endswith('fail_compile') and r.compile == 0)
+        if not rejected:
+          S.finding(e['fingerprint_when_found'], 'document with a schema violation is accepted (%s)' % origin, dict(xml=show(data)))
+      elif e['expect'] == 'conforming' and r.parse == 0 and layer_of(r.perr) != 'semantic':
+        msg, el = norm_msg(r.perr)
+        S.finding('conforming-rejected:%s@%s' % (re.sub(r'\d+', 'N', msg)[:90], el),
+                  'schema-conforming document rejected with a schema/type-layer message: %r (%s)' % (r.perr[:300], origin),
+                  dict(xml=show(data), message=r.perr))
+      res['still-present' if sum(S.findings.values()) > before else 'passes'] += 1
+      ck.label('regression:' + ('still-present' if sum(S.findings.values()) > before else 'passes'))
+  finally:
+    w.stop()
+  ck.extra['regressions'] = dict(res)
 
 
 def replay(ck, body):
